@@ -147,6 +147,41 @@ pub fn run(ctx: &Ctx) {
         pass(true, "annex")
     });
 
+    ctx.listed("signatures_that_look_like_another_format", "messages searched (fixed d, ID, k) until r starts with bytes another signature or point format would start with: 30 3e / 30 44 / 30 45 / 30 46 (a DER SEQUENCE header whose length byte fits), 04, 02, 03 (SEC1 tags), 00 00, ff ff, or is ASCII hex digits ('30'..'39', '61'..'66'): a raw 64-byte signature is never anything but r||s; and the same for s", || {
+        use rayon::prelude::*;
+        let n = &r2::params().n;
+        let d = from_be(&expand_bytes(0x2e30, 32)) % (n - 2u32) + 1u32;
+        let k = from_be(&expand_bytes(0x2e31, 32)) % (n - 1u32) + 1u32;
+        let pk = r2::g_mul(&d);
+        let id = 1usize;
+        let (id_b, _) = id_bytes(id);
+        let za = r2::za(id_b, &pk);
+        let x1 = from_be(&r2::xy(&r2::g_mul(&k)).unwrap().0);
+        let dinv = crate::refimpl::field::mod_inv(&((&d + 1u32) % n), n).unwrap();
+        let wants: Vec<(usize, Vec<u8>)> = vec![
+            (0, vec![0x30, 0x3e]), (0, vec![0x30, 0x44]), (0, vec![0x30, 0x45]), (0, vec![0x30, 0x46]), (0, vec![0x04]), (0, vec![0x02]), (0, vec![0x03]), (0, vec![0, 0]), (0, vec![0xff, 0xff]), (0, vec![0x33, 0x61]),
+            (1, vec![0x30, 0x3e]), (1, vec![0x04]), (1, vec![0, 0]), (1, vec![0x02, 0x20]),
+        ];
+        let mut v = Vec::new();
+        for (comp, prefix) in wants {
+            let hit = (0..(1u64 << 20)).into_par_iter().find_first(|s| {
+                let msg = expand_bytes(*s ^ 0x2e32, 24);
+                let e = from_be(&crate::refimpl::sm3::sm3_parts(&[&za, &msg]));
+                // r = (e + x1) mod n, s = (1 + d)^-1 (k - r d) mod n with x1 = x([k]G) computed once
+                let r = (&e + &x1) % n;
+                if r.bits() == 0 || (&r + &k) == *n {
+                    return false;
+                }
+                let sv = (&dinv * ((&k + n * n - &r * &d) % n)) % n;
+                sv.bits() != 0 && to32(if comp == 0 { &r } else { &sv }).starts_with(&prefix)
+            });
+            if let Some(s) = hit {
+                v.push(SignCase { d: gen::hex32(&d), id, msg_len: 24, msg_seed: s ^ 0x2e32, k: Some(gen::hex32(&k)) });
+            }
+        }
+        v
+    }, check_sign);
+
     ctx.exhaustive("keys_and_nonces_with_zero_limbs", "d (resp. k) with an all-zero 64-bit limb below a non-zero limb and zero runs across limb boundaries: exact signature, both verifications", || {
         let n = &r2::params().n;
         let mut v = Vec::new();
